@@ -585,8 +585,14 @@ impl Connection {
                     .ok_or_else(|| Error::InvalidStateMessage("no active stream".to_string()))?;
 
                 stream.write_u32(total_len as u32).await?;
+                #[cfg(feature = "verif-hooks")]
+                crate::verif::yield_point("conn:send:after_len").await;
                 stream.write_u8(PASS_THROUGH).await?;
+                #[cfg(feature = "verif-hooks")]
+                crate::verif::yield_point("conn:send:after_marker").await;
                 stream.write_all(&control_encoded).await?;
+                #[cfg(feature = "verif-hooks")]
+                crate::verif::yield_point("conn:send:after_control").await;
                 stream.write_all(&msg_encoded).await?;
                 stream.flush().await?;
             } else {
@@ -603,7 +609,11 @@ impl Connection {
                     .ok_or_else(|| Error::InvalidStateMessage("no active stream".to_string()))?;
 
                 stream.write_u32(total_len as u32).await?;
+                #[cfg(feature = "verif-hooks")]
+                crate::verif::yield_point("conn:send:after_len").await;
                 stream.write_u8(PASS_THROUGH).await?;
+                #[cfg(feature = "verif-hooks")]
+                crate::verif::yield_point("conn:send:after_marker").await;
                 stream.write_all(&control_encoded).await?;
                 stream.flush().await?;
             }
